@@ -7,6 +7,7 @@ import (
 	"encoding/json"
 	"flag"
 	"fmt"
+	"hash/fnv"
 	"os"
 	"runtime/pprof"
 	"sort"
@@ -63,38 +64,48 @@ type ScenarioRow struct {
 }
 
 type Report struct {
-	Property       string           `json:"property"`
-	Tier           string           `json:"tier"`
-	Shard          int              `json:"shard"`
-	NShards        int              `json:"nshards"`
-	Scenarios      int              `json:"scenarios"`
-	ScenariosTotal int              `json:"scenarios_total"`
-	Executions     int64            `json:"executions"`
-	Transitions    int64            `json:"transitions"`
-	TreeNodes      int64            `json:"tree_nodes"`
-	States         int64            `json:"states"`
-	Pruned         int64            `json:"pruned"`
-	ByCost         map[string]int64 `json:"by_cost"`
-	Outcomes       map[string]int64 `json:"outcomes"`
-	MaxDepth       int              `json:"max_depth"`
-	MaxThreads     int              `json:"max_threads"`
-	Deadlocks      int64            `json:"deadlocks"`
-	Races          int64            `json:"races"`
-	Panics         int64            `json:"panics"`
-	Capped         bool             `json:"capped"`
-	CapReasons     []string         `json:"cap_reasons"`
-	Incomplete     []string         `json:"incomplete_scenarios"`
-	Violations     []ViolationOut   `json:"violations"`
-	Samples        []any            `json:"samples"`
-	Rows           []ScenarioRow    `json:"rows,omitempty"`
-	WallS          float64          `json:"wall_s"`
-	Extra          map[string]int64 `json:"extra,omitempty"`
+	Property         string           `json:"property"`
+	Tier             string           `json:"tier"`
+	Shard            int              `json:"shard"`
+	NShards          int              `json:"nshards"`
+	Scenarios        int              `json:"scenarios"`
+	ScenariosTotal   int              `json:"scenarios_total"`
+	Executions       int64            `json:"executions"`
+	Transitions      int64            `json:"transitions"`
+	TreeNodes        int64            `json:"tree_nodes"`
+	States           int64            `json:"states"`
+	Pruned           int64            `json:"pruned"`
+	ByCost           map[string]int64 `json:"by_cost"`
+	Outcomes         map[string]int64 `json:"outcomes"`
+	DistinctOutcomes int              `json:"distinct_outcomes"`
+	OutcomeHashes    []uint64         `json:"outcome_hashes,omitempty"`
+	MaxDepth         int              `json:"max_depth"`
+	MaxThreads       int              `json:"max_threads"`
+	Deadlocks        int64            `json:"deadlocks"`
+	Races            int64            `json:"races"`
+	Panics           int64            `json:"panics"`
+	Capped           bool             `json:"capped"`
+	CapReasons       []string         `json:"cap_reasons"`
+	Incomplete       []string         `json:"incomplete_scenarios"`
+	Violations       []ViolationOut   `json:"violations"`
+	Samples          []any            `json:"samples"`
+	Rows             []ScenarioRow    `json:"rows,omitempty"`
+	WallS            float64          `json:"wall_s"`
+	Extra            map[string]int64 `json:"extra,omitempty"`
 }
 
 // extra counters any scenario may bump (merged into the report)
 var extra = map[string]int64{}
 
 var noMerge bool
+
+var outcomeSet = map[uint64]struct{}{}
+
+func hashOutcome(s string) uint64 {
+	h := fnv.New64a()
+	h.Write([]byte(s))
+	return h.Sum64()
+}
 
 func main() {
 	prop := flag.String("prop", "", "property id")
@@ -197,7 +208,15 @@ func main() {
 			rep.ByCost[strconv.Itoa(k)] += v
 		}
 		for k, v := range st.Outcomes {
-			rep.Outcomes[k] += v
+			h := hashOutcome(k)
+			if _, seen := outcomeSet[h]; !seen {
+				outcomeSet[h] = struct{}{}
+				if len(rep.Outcomes) < 300 {
+					rep.Outcomes[k] += v // a few written out as examples
+				}
+			} else if _, kept := rep.Outcomes[k]; kept {
+				rep.Outcomes[k] += v
+			}
 		}
 		if st.MaxDepth > rep.MaxDepth {
 			rep.MaxDepth = st.MaxDepth
@@ -248,6 +267,12 @@ func main() {
 	}
 	rep.WallS = time.Since(start).Seconds()
 	rep.Extra = extra
+	rep.DistinctOutcomes = len(outcomeSet)
+	if len(outcomeSet) <= 250000 {
+		for h := range outcomeSet {
+			rep.OutcomeHashes = append(rep.OutcomeHashes, strconv.FormatUint(h, 36))
+		}
+	}
 	b, _ := json.Marshal(rep)
 	if *out != "" {
 		if err := os.WriteFile(*out, b, 0o644); err != nil {
